@@ -62,7 +62,7 @@ pub fn meta(prop: &str) -> Meta {
         },
         "C02" => Meta {
             functions: &["frost_core::round1::commit / Nonce::nonce_generate_from_random_bytes", "frost_core::round1::encode_group_commitments", "frost_core::SigningPackage::binding_factor_preimages", "frost_core::compute_binding_factor_list", "frost_core::compute_group_commitment", "frost_core::challenge", "frost_core::compute_lagrange_coefficient", "frost_core::round2::sign / compute_signature_share", "frost_core::aggregate", "frost_core::Signature::serialize", "frost_core::SigningKey::sign", "frost_core::VerifyingKey::verify", "frost_core::Identifier::try_from<u16> / serialize / deserialize / cmp"],
-            bounds: "differential against scen/src/spec.rs (RFC 9591 4.1-4.6, 5.2, 5.3), itself pinned to the RFC vectors of 5 suites (195 values) at every run. All (n,t) of the sweep; all signer subsets for default identifiers, 3 subsets for the other identifier sets (u16-extreme, pseudo-random full-width; + extreme scalars, non-contiguous, 3 seeds thorough); 4 message kinds; single-signer entry point; 14 boundary u16 identifiers. Participants are ordered for the oracle by numeric value, independently of Identifier::cmp.",
+            bounds: "differential against scen/src/spec.rs (RFC 9591 4.1-4.6, 5.2, 5.3), itself pinned to the RFC vectors of 5 suites (195 values) at every run; 34-signer shapes (up to 65 thorough); in the concrete runs on the five real suites the suites' own H1-H5 are compared with refhash.rs (independent transcription pinned to 125 RFC vector values) on the run's preimages and on 35 input lengths from 0 to 4096. All (n,t) of the sweep; all signer subsets for default identifiers, 3 subsets for the other identifier sets (u16-extreme, pseudo-random full-width; + extreme scalars, non-contiguous, 3 seeds thorough); 4 message kinds; single-signer entry point; 14 boundary u16 identifiers. Participants are ordered for the oracle by numeric value, independently of Identifier::cmp.",
             outside: &["that each crate's H1..H5 compute the RFC's hashes with the RFC's domain separation (pinned by the repository's own vectors)", "byte encodings of the real curves; u16->identifier for the dalek suites (Kani stalls)", "BIP-340 exactness is C18"],
             ..base
         },
@@ -80,7 +80,7 @@ pub fn meta(prop: &str) -> Meta {
         },
         "C05" => Meta {
             functions: &["frost_core::round2::sign (own-entry checks)", "frost_core::verify_signature_share", "frost_core::aggregate / aggregate_custom", "frost_core::compute_binding_factor_list", "frost_core::compute_group_commitment (identity check)", "frost_core::challenge"],
-            bounds: "two concurrent sessions over the same key; every non-empty filling of the signer slots with the other session's shares; every single-field substitution in the verifier's package (message, each hiding/binding commitment, participant removed/added/replaced, group key); nine signer-side refusal kinds (incl. the true commitments filed under another signer's / an added participant's identifier, entries exchanged) for the first and last signer position (every position thorough); identity commitment in every slot and component; |S| <= 3 quick, <= 4 thorough, n <= 5",
+            bounds: "two concurrent sessions over the same key; every non-empty filling of the signer slots with the other session's shares; every single-field substitution in the verifier's package (message, each hiding/binding commitment, participant removed/added/replaced, group key); compound substitution (D - rho*Delta, E + Delta) with the library's own binding factor and replacement by a free adversarial pair, per slot; 34-signer sets (first, second, middle, last slot); nine signer-side refusal kinds (incl. the true commitments filed under another signer's / an added participant's identifier, entries exchanged) for the first and last signer position (every position thorough); identity commitment in every slot and component; |S| <= 3 quick, <= 4 thorough, n <= 5",
             outside: &["collision resistance of the real hashes"],
             ..base
         },
@@ -116,7 +116,7 @@ pub fn meta(prop: &str) -> Meta {
         },
         "C12" => Meta {
             functions: &["serialize/deserialize and serde_json of SecretShare, KeyPackage, PublicKeyPackage (incl. pre-3.0 form), SigningNonces, SigningCommitments, SigningPackage, dkg round1::Package, round1::SecretPackage, round2::SecretPackage, round2::Package", "fixed-size: Identifier, SigningShare, VerifyingShare, VerifyingKey, SignatureShare, Nonce, NonceCommitment, CoefficientCommitment, Delta, Sigma, Signature, Randomizer, SigningKey, VerifiableSecretSharingCommitment (list and whole)", "frost_core::serialization::{Serialize, Deserialize, version_deserialize, ciphersuite_deserialize}"],
-            bounds: "E1 half: n <= 5, three identifier sets, symbolic payloads; header mutations (version byte, each of the 4 ciphersuite-id bytes), truncation, empty string, JSON with other suite id / version / unknown field; zero identifier, zero signing key. Canonicity of the real encodings is the E2 half.",
+            bounds: "E1 half: n <= 5, three identifier sets, symbolic payloads; header mutations (version byte, each of the 4 ciphersuite-id bytes), truncation, empty string, JSON decoded four ways (from_str, from a reader, from a parsed Value, with \\u002d escapes) and with other suite id / version / unknown field; zero identifier, zero signing key. Canonicity of the real encodings is the E2 half.",
             outside: &["point decoding of the real curves", "trailing bytes after a complete postcard package"],
             ..base
         },
@@ -128,7 +128,7 @@ pub fn meta(prop: &str) -> Meta {
         },
         "C14" => Meta {
             functions: &["round2::sign, aggregate_custom, verify_signature_share, batch::Verifier::verify", "SecretShare::verify, KeyPackage::try_from, reconstruct, PublicKeyPackage::from_commitment / from_dkg_commitments", "dkg::part2, dkg::part3", "compute_refreshing_shares, refresh_share, refresh_dkg_part2", "repair_share_part1/2/3", "deserialize of every package type on prefixes and single-byte mutations"],
-            bounds: "(n,t) in {(2,2),(3,2),(3,3)} (+(4,2),(4,3) thorough); empty / one-entry / oversized / duplicated / mutually inconsistent / equivocating-peer inputs; public key packages recording threshold 0/1/n/n+1/65535 into refresh, aggregation and repair; (max,min) boundary pairs into part1/refresh part1; adversarial scalars and elements fork; catch_unwind with overflow checks and debug assertions on",
+            bounds: "(n,t) in {(2,2),(3,2),(3,3)} (+(4,2),(4,3) thorough); empty / one-entry / oversized / duplicated / mutually inconsistent / equivocating-peer inputs; commitment vectors of 65536 + t entries into KeyPackage::try_from / dkg part2 / part3 (concrete runs on the real suites only: a 65536-term symbolic sum exhausts the term arena); public key packages recording threshold 0/1/n/n+1/65535 into refresh, aggregation and repair; (max,min) boundary pairs into part1/refresh part1; adversarial scalars and elements fork; catch_unwind with overflow checks and debug assertions on",
             outside: &["dishonest own state", "byte strings beyond the E2 bounds", "third-party crates on well-typed input"],
             ..base
         },
